@@ -372,26 +372,28 @@ def evaluate(case, strict_cv_types=False, check_flag=True):
             return ("law.shape", f"step {k}: {e}")
         cmp_exp = exp
         if not check_flag:
+            if [p[3] for p in got["params"] if p[0] == "cp"] != [p[3] for p in exp["params"] if p[0] == "cp"]:
+                case.setdefault("_notes", []).append("flag_dropped")
             cmp_exp = dict(exp, params=[p[:3] if p[0] == "cp" else p for p in exp["params"]])
             got["params"] = [p[:3] if p[0] == "cp" else p for p in got["params"]]
         d = first_diff(got, cmp_exp)
+        if d and not strict_cv_types:
+            # a stale type annotation on occurrences of a remaining const variable (see the
+            # module docstring of checks/c13.py) is only noted: compare with those erased
+            d = first_diff(strip_cv_types(got), strip_cv_types(cmp_exp))
+            if d is None:
+                case.setdefault("_notes", []).append("stale_cv_type")
         if d:
             comp = diff_component(d)
-            # a stale type annotation on a bound const variable occurrence (see module
-            # docstring of checks/c13.py) is reported separately
-            if not strict_cv_types and comp in ("inputs", "output", "comptime") and \
-                    first_diff(strip_cv_types(got), strip_cv_types(cmp_exp)) is None:
-                case.setdefault("_notes", []).append("stale_cv_type")
-            else:
-                which = "final" if last else "partial"
-                sub = ""
-                if comp == "params":
-                    gp, ep = got["params"], cmp_exp["params"]
-                    if len(gp) == len(ep) and all(g[:3] == e[:3] for g, e in zip(gp, ep)):
-                        sub = ".from_comptime_arg"
-                    elif len(gp) == len(ep) and all(g[:2] == e[:2] for g, e in zip(gp, ep)):
-                        sub = ".bound_type"
-                return (f"law.{which}.{comp}{sub}", f"step {k} inst={inst}: {d}")
+            which = "final" if last else "partial"
+            sub = ""
+            if comp == "params":
+                gp, ep = got["params"], cmp_exp["params"]
+                if len(gp) == len(ep) and all(g[:3] == e[:3] for g, e in zip(gp, ep)):
+                    sub = ".from_comptime_arg"
+                elif len(gp) == len(ep) and all(g[:2] == e[:2] for g, e in zip(gp, ep)):
+                    sub = ".bound_type"
+            return (f"law.{which}.{comp}{sub}", f"step {k} inst={inst}: {d}")
         # fold this step into the composite
         total = compose(total, inst) if k else list(inst)
         cur, cur_params, cur_inputs, cur_output, cur_ct = nxt, exp["params"], exp["inputs"], exp["output"], exp["comptime"]
@@ -406,12 +408,12 @@ def evaluate(case, strict_cv_types=False, check_flag=True):
             d = first_diff(W.MF(cur), W.MF(one))
             return ("law.compose.neq", f"steps {steps} vs one step {total}: {d or 'objects differ (==) but mirrors agree'}")
     exp1 = expected(params, inputs, output, total, comptime_of(params))
-    d = first_diff(W.MF(one), exp1)
+    got1 = W.MF(one)
+    d = first_diff(got1, exp1)
+    if d and not strict_cv_types:
+        d = first_diff(strip_cv_types(got1), strip_cv_types(exp1))
     if d:
-        if not strict_cv_types and first_diff(strip_cv_types(W.MF(one)), strip_cv_types(exp1)) is None:
-            case.setdefault("_notes", []).append("stale_cv_type")
-        else:
-            return (f"law.onestep.{diff_component(d)}", f"inst={total}: {d}")
+        return (f"law.onestep.{diff_component(d)}", f"inst={total}: {d}")
     return None
 
 
@@ -461,7 +463,7 @@ def law_cases():
         params = []
         for i in range(m):
             tps = [j for j, p in enumerate(params) if p[0] == "tp" and p[2] and p[3]]
-            kind = draw(st.sampled_from(["tp", "tp", "nat", "nat", "nonnat", "dep" if tps else "nat"]))
+            kind = draw(st.sampled_from(["tp", "tp", "nat", "nat", "nonnat"] + (["dep", "dep", "dep"] if tps else ["nat"])))
             if kind == "tp":
                 cd = draw(st.sampled_from([(True, True), (True, True), (False, False), (True, False), (False, True)]))
                 params.append(("tp", f"T{i}", cd[0], cd[1]))
